@@ -22,7 +22,7 @@ def cli_case(draw):
     spec = draw(D.dataset_spec(max_loci=3, max_snvs=4, max_samples=3, max_reads=25, mapq_values=(60,), flags=False, min_reads=1))
     ploidy = {s: draw(st.sampled_from([2, 4, 3, 5])) for s in spec["samples"]}
     inbreeding = {s: draw(st.sampled_from([0.0, 0.0, 0.1, 0.5])) for s in spec["samples"]}
-    reports = [["AFP"], ["GP", "GL", "AFP", "AOP", "ACP"]] + list(draw(st.permutations(REPORTS)))[:2]
+    reports = [["AFP", "AOP", "ACP"], ["GP", "GL", "AFP", "AOP", "ACP"]] + list(draw(st.permutations(REPORTS)))[:2]
     reports = list(draw(st.permutations(reports)))
     return {"kind": "cli", "spec": spec, "ploidy": ploidy, "inbreeding": inbreeding, "reports": reports, "seed": draw(st.integers(1, 10000)),
             "threshold": draw(st.sampled_from([0.05, 0.2])), "prior": draw(st.booleans())}
@@ -108,6 +108,18 @@ def check_cli(ctx, case):
                             if abs(tot - 1.0) > 0.0005 * len(gp) + 1e-6:
                                 problems.append(Problem("cli:GP_sum", "sample %s GP sums to %r" % (s, tot)))
                                 return problems
+                            # AFP / ACP / AOP must be the corresponding functionals of the printed GP
+                            gens = list(R.vcf_order(case["ploidy"][s], n_all))
+                            band = 0.0005 * len(gp) + 0.0006
+                            for key, fn in (("AFP", lambda g, a: g.count(a) / len(g)), ("ACP", lambda g, a: float(g.count(a))), ("AOP", lambda g, a: 1.0 if a in g else 0.0)):
+                                if key in d and d[key] != ".":
+                                    vals = V.floats(d[key])
+                                    for a in range(n_all):
+                                        exp = sum((p or 0.0) * fn(g, a) for g, p in zip(gens, gp))
+                                        scale = case["ploidy"][s] if key == "ACP" else 1.0
+                                        if a < len(vals) and vals[a] is not None and abs(vals[a] - exp) > band * scale:
+                                            problems.append(Problem("cli:%s_vs_GP" % key, "%s:%d sample %s: %s[%d]=%r but the printed GP implies %r (--report %s)" % (r["CHROM"], r["POS"], s, key, a, vals[a], round(exp, 4), rep)))
+                                            return problems
                             gt = [int(a) for a in d["GT"].split("/") if a != "."]
                             if len(gt) == case["ploidy"][s]:
                                 idx = R.genotype_rank(gt)
